@@ -99,6 +99,8 @@ def norm_block(text):
 
 def block_target(block, targets, policy_mode=False):
     """Index of the target a text block belongs to, or None."""
+    # verbose progress lines of *other* targets may be interleaved anywhere: they never identify a block
+    block = '\n'.join(ln for ln in block.split('\n') if not PROGRESS.match(ln))
     m = re.search(r'(?m)^\(gen\) target: (\S+)', block)
     if m is None and policy_mode:
         m = re.search(r'(?m)^Host:\s+(\S+)', block)
